@@ -25,6 +25,7 @@ def random_kernel(rng, idx):
                        "inc_any", "readinc_any", "two", "domain"])
     args = []
     operates_on = "cell_column"
+    stencil_ok = not kind.startswith("op")
     if kind in ("inc", "readinc"):
         args.append(("field", kind.upper(), rng.choice(CONT)))
     elif kind in ("inc_any", "readinc_any"):
@@ -46,12 +47,15 @@ def random_kernel(rng, idx):
     elif kind == "domain":
         operates_on = "domain"
         args.append(("field", rng.choice(["WRITE", "READWRITE"]), rng.choice(DISC[:2])))
-    # read-only extras
+    # read-only extras (a third of them read through a stencil, some are field vectors)
     for _ in range(rng.randint(0, 2)):
         if operates_on == "domain":
             args.append(("field", "READ", rng.choice(DISC[:2])))
+        elif stencil_ok and rng.random() < 0.4:
+            args.append(("field", "READ", rng.choice(CONT + ANY + DISC), rng.choice(L.STENCILS),
+                         rng.choice(["variable", "literal"]), 1))
         else:
-            args.append(("field", "READ", rng.choice(CONT + ANY + DISC)))
+            args.append(("field", "READ", rng.choice(CONT + ANY + DISC), None, None, rng.choice([1, 1, 1, 3])))
     if rng.random() < 0.15:
         args.append(("rscalar", "READ"))
     rng.shuffle(args)
@@ -76,8 +80,15 @@ FIXED_KERNELS = [
     {"name": "kf_readinc_any", "operates_on": "cell_column",
      "args": [("field", "READ", "w3"), ("field", "READINC", "any_space_1")]},
 ]
+for _i, _st in enumerate(L.STENCILS):
+    FIXED_KERNELS.append({"name": f"kf_sten_{_st}", "operates_on": "cell_column",
+                          "args": [("field", "INC" if _i % 2 == 0 else "READINC", ["w1", "w0", "any_space_1"][_i % 3]),
+                                   ("field", "READ", "w2", _st, "variable" if _i % 2 == 0 else "literal", 1)]})
+FIXED_KERNELS.append({"name": "kf_vec_inc", "operates_on": "cell_column",
+                      "args": [("field", "INC", "w2", None, None, 3), ("field", "READ", "w3", "region", "variable", 1)]})
 FIXED_INVOKES = [[("kern", 0), ("kern", 1)], [("kern", 2), ("builtin", "setval_c", "w0")],
-                 [("kern", 3), ("kern", 4), ("builtin", "X_innerproduct_Y", "w3")]]
+                 [("kern", 3), ("kern", 4), ("builtin", "X_innerproduct_Y", "w3")],
+                 [("kern", 5), ("kern", 6), ("kern", 7)], [("kern", 8), ("kern", 9), ("kern", 10)], [("kern", 11)]]
 
 
 # ---- histories ---------------------------------------------------------------------------
@@ -85,7 +96,7 @@ def random_step(rng, sched, bias):
     """A step [name, targets] chosen on the current real schedule; mostly sensible targets."""
     from psyclone.psyir.nodes import Loop
     nodes = L.statement_nodes(sched)
-    name = rng.choice(L.TRANS if rng.random() > bias else ["colour", "omp_parallel_do", "omp_do", "acc_loop", "omp_parallel"])
+    name = rng.choice(L.TRANS if rng.random() > bias else ["colour", "omp_parallel_do", "omp_do", "acc_loop", "omp_parallel", "gen_omp_do", "gen_omp_parallel_do"])
     if name in L.LOOP_TRANS:
         loops = [i for i, n in enumerate(nodes) if isinstance(n, Loop)]
         if loops and rng.random() < 0.85:
@@ -111,8 +122,8 @@ def step_sx(step):
     name, tg = step
     if name == "colour":
         return ["c", tg[0]]
-    if name in ("omp_parallel_do", "omp_do", "acc_loop"):
-        return ["p", {"omp_parallel_do": 0, "omp_do": 1, "acc_loop": 2}[name], tg[0]]
+    if name in L.PAR_LOOP_TRANS:
+        return ["p", {"omp_parallel_do": 0, "omp_do": 1, "acc_loop": 2, "gen_omp_do": 3, "gen_omp_parallel_do": 4}[name], tg[0]]
     return ["r", {"omp_parallel": 0, "acc_parallel": 1, "acc_kernels": 2}[name]] + list(tg)
 
 
@@ -163,13 +174,13 @@ def forest_out(sched):
     return conv(L.abstract(sched))
 
 
-def run_history_real(info, dm, steps=None, rng=None, nsteps=0, bias=0.0, gen=True, complete=False):
+def run_history_real(info, dm, steps=None, rng=None, nsteps=0, bias=0.0, gen=True, complete=False, invoke=0):
     """Run a history (given, or drawn step by step from rng) on a fresh real invoke.
     Returns dict(init, steps, results, final, unsafe, gen, ...)."""
     psy = L.make_psy(info, dm)
-    sched = psy.invokes.invoke_list[0].schedule
+    sched = psy.invokes.invoke_list[invoke].schedule
     init = forest_in_sx(sched)
-    out = {"init": init, "steps": [], "results": [], "messages": [], "unsafe": None, "unsafe_after": None}
+    out = {"da_assumption": L.da_assumption(sched), "init": init, "steps": [], "results": [], "messages": [], "unsafe": None, "unsafe_after": None}
     todo = list(steps) if steps is not None else None
     k = 0
     while (todo if todo is not None else k < nsteps):
@@ -183,7 +194,7 @@ def run_history_real(info, dm, steps=None, rng=None, nsteps=0, bias=0.0, gen=Tru
             why = L.unsafe_reason(sched)
             if why:
                 out["unsafe"], out["unsafe_after"] = why, len(out["steps"])
-    if rng is not None and complete:
+    if complete:
         # complete the history so that generation has a chance: enclose orphan worksharing / acc loop directives
         for _ in range(6):
             st = completion_step(sched)
